@@ -69,3 +69,51 @@ func H_C18_root_mono_2() { c18root(2, true, false) }
 // H_C18_root_mono_3: three iterations, monotone f.
 //vsym:prop=C18 tier=thorough ints=int floats=real timeout=300
 func H_C18_root_mono_3() { c18root(3, true, false) }
+
+// c18halving: the bracket at least halves in every iteration, observed from outside: the run
+// with a budget of one iteration returns one END of the new bracket (x1); the run with a budget
+// of two evaluates, first thing in its second iteration, the MIDPOINT of that bracket (h2); so
+// the new width is 2|h2-x1| and must be at most half the old one.  From an arbitrary bracket
+// and guess this is the inductive step of "after k iterations the bracket is at most
+// (max-min)/2^k wide", i.e. of convergence whenever the budget suffices for interval halving.
+func c18halving(mono, newton bool) {
+	min0, max0 := vsym.Float64("min"), vsym.Float64("max")
+	vsym.Assume(min0 < max0)
+	x0 := vsym.Float64("guess")
+	vsym.Assume(x0 >= min0 && x0 <= max0)
+	tol, conv := vsym.Float64("tolerance"), vsym.Float64("convergence")
+	vsym.Assume(tol > 0 && conv >= 0)
+	var evals []float64
+	f := func(x float64) float64 {
+		evals = append(evals, x)
+		if mono {
+			return vsym.UFMono1("f", x)
+		}
+		return vsym.UF1("f", x)
+	}
+	var fdx func(float64) float64
+	if newton {
+		fdx = func(x float64) float64 { return vsym.UF1("dfdx", x) }
+	}
+	fmin, fmax := f(min0), f(max0)
+	vsym.Assume(fmin <= 0 && fmax >= 0)
+	vsym.Assume(fmax-fmin > 0)
+	evals = evals[:0]
+	x1, _ := FindRoot(f, fdx, x0, min0, max0, tol, conv, 1)
+	n1 := len(evals)
+	evals = evals[:0]
+	FindRoot(f, fdx, x0, min0, max0, tol, conv, 2)
+	vsym.Reach("two-budgets-compared")
+	if len(evals) > n1 {
+		h2 := evals[n1]
+		vsym.Assert(4*math.Abs(h2-x1) <= max0-min0, "bracket-at-least-halves-per-iteration")
+	}
+}
+
+// H_C18_root_halving: secant + halving trials, f with a sign change only.
+//vsym:prop=C18 tier=quick ints=int floats=real timeout=120
+func H_C18_root_halving() { c18halving(false, false) }
+
+// H_C18_root_halving_newton: with a Newton trial from an arbitrary derivative.
+//vsym:prop=C18 tier=quick ints=int floats=real timeout=120
+func H_C18_root_halving_newton() { c18halving(false, true) }
